@@ -1069,14 +1069,23 @@ def _replay_lines(out):
 def btree_node_part(rep, thorough, label, light=False):
     """Design check of BTreeNode.tla (small ORDER, exhaustive), then behaviours for ORDER = 8 replayed with the SHAPE of
     the stored tree compared with the specification's after every operation."""
-    for cfg in ("MC_BTreeNode_o2.cfg",) if light else ("MC_BTreeNode_o2.cfg", "MC_BTreeNode_o4.cfg"):
-        res = vcore.tlc_check("BTreeNode.tla", os.path.join(vcore.SPEC, cfg), timeout=2400)
+    cfgs = ["MC_BTreeNode_o2.cfg"] + ([] if light else ["MC_BTreeNode_o4.cfg"]) + (["MC_BTreeNode_o4_18.cfg"] if thorough else [])
+    for cfg in cfgs:
+        res = vcore.tlc_check("BTreeNode.tla", os.path.join(vcore.SPEC, cfg), timeout=3000)
         rep.add_model(res, cfg[:-4])
         if not res["ok"]:
             rep.violation("TLC: %s violated in BTreeNode.tla (%s)" % (res["violated"], cfg),
                           {"kind": "model", "cfg": cfg, "tlc_tail": res["out"][-5000:]})
         else:
             log("[tlc] %s: %d distinct trees: ok" % (cfg[:-4], res["distinct"]))
+    # necessity: deliberately wrong variants of two steps (children of a split-off inner node one slot too far; a full
+    # inner node that lends its first child loses its last) must be rejected by the invariants
+    for cfg in ["MC_BTreeNode_o2_mut_split.cfg", "MC_BTreeNode_o2_mut_lend.cfg"] + (["MC_BTreeNode_o4_mut_split.cfg"] if thorough else []):
+        r = vcore.tlc_check("BTreeNode.tla", os.path.join(vcore.SPEC, cfg), timeout=3000)
+        rep.add_model(r, cfg[:-4])
+        if r["ok"]:
+            raise ToolError("BTreeNode.tla: the wrong variant %s passes the invariants: vacuous" % cfg)
+        log("[tlc] necessity %s: %s violated after %d trees, as required" % (cfg[:-4], r["violated"], r["distinct"]))
     # canonical trees x every single operation (breadth first, one behaviour per successor)
     res = vcore.tlc_check("BTreeNode.tla", os.path.join(vcore.SPEC, "ASC_BTreeNode.cfg"), workers=1, timeout=2400)
     rep.add_model(res, "ASC_BTreeNode")
